@@ -1,0 +1,29 @@
+//go:build verif
+
+// Contracts for the verification machinery in /verif (comment-only; compiled only with -tags verif).
+package types
+
+// FUND <-> nund conversion (C19).  Text and numbers are related by the assumed views of /verif/trusted/00_sdk.spec:
+// decVal(s) is 10^18 times the number written by the decimal text s, intStr(n) the decimal text of an integer, and
+// fmt3(sign, q, r) the text sign ++ q ++ "." ++ r padded to nine digits.  With those views the result is stated
+// exactly: nund = floor(FUND x 10^9) as an integer, FUND = nund / 10^9 as quotient and nine-digit remainder.
+//
+// Precondition: the amount times 10^9 fits the 315 bits of the decimal type (about 68 integer digits); beyond that
+// the library panics (noted in DESIGN.md).
+//@ func ConvertUndDenomination(amount, from, to) (res, err)
+//@   props C19
+//@   requires validDecStr(amount) ==> in315(decVal(amount) * 1000000000)
+//@   let d := decVal(amount)
+//@   let n := tdiv(decVal(amount), ONE)
+//@   nopanic
+//@   ensures @same_denomination from == to ==> err == nil && res == strcat(amount, from)
+//@   ensures @every_decimal_accepted from != to && (from == "fund" || from == "nund") ==> (err == nil) == validDecStr(amount)
+//@   ensures @fund_to_nund_exact from == "fund" && to != "fund" && err == nil ==> res == strcat(intStr(tdiv(d * 1000000000, ONE)), to)
+//@   ensures @nund_to_fund_exact from == "nund" && to != "nund" && err == nil ==> res == strcat(fmt3(n < 0 ? "-" : "", intStr(abs(n) / 1000000000), abs(n) % 1000000000), to)
+
+// With at most nine fractional digits (10^9 divides decVal) the nund amount times 10^9 is the FUND amount exactly,
+// and converting nund -> FUND -> nund returns the original amount.
+//@ lemma fund_to_nund_is_exact_for_nine_decimals [C19]: forall d int :: d % 1000000000 == 0 ==> tdiv(d * 1000000000, ONE) * 1000000000 == d
+//@ lemma nund_to_fund_is_exact [C19]: forall n int :: n >= 0 ==> (n / 1000000000) * 1000000000 + n % 1000000000 == n && 0 <= n % 1000000000 && n % 1000000000 < 1000000000
+//@ lemma nund_fund_nund_roundtrip [C19]: forall n int :: n >= 0 ==> tdiv(decVal(fmt3("", intStr(n / 1000000000), n % 1000000000)) * 1000000000, ONE) == n
+//@ lemma fund_nund_fund_roundtrip [C19]: forall d int :: d >= 0 && d % 1000000000 == 0 ==> (tdiv(decVal(intStr(tdiv(d * 1000000000, ONE))), ONE) / 1000000000) * ONE + (tdiv(decVal(intStr(tdiv(d * 1000000000, ONE))), ONE) % 1000000000) * 1000000000 == d
